@@ -299,11 +299,28 @@ def main(argv):
     build_ok = True
     if not args.no_build:
         with open(os.path.join(OUT, ".build.lock"), "w") as lk:
-            fcntl.flock(lk, fcntl.LOCK_EX)
+            got = True
+            if common.ALT:
+                # seed testing against a scratch worktree: the Lean side is unchanged, so when the build lock is
+                # busy for long (other builds running) use the binaries that are already there
+                got = False
+                t_end = time.time() + 90
+                while time.time() < t_end:
+                    try:
+                        fcntl.flock(lk, fcntl.LOCK_EX | fcntl.LOCK_NB)
+                        got = True
+                        break
+                    except OSError:
+                        time.sleep(3)
+            else:
+                fcntl.flock(lk, fcntl.LOCK_EX)
             try:
                 run.extract()
                 run.forbidden_scan()
-                if run.lake_build():
+                if not got:
+                    run.say("[alt] build lock busy: lake build skipped, using existing model binaries")
+                    run.audit()
+                elif run.lake_build():
                     run.audit()
                     if tier == "thorough":
                         run.leanchecker()
